@@ -282,3 +282,26 @@ Definition drv_run (q0 : list T) (ops : list drv_op) : list (res (list Z)) :=
                     | DDraw us => (fst st, snd st ++ [drv_draw_Q (fst st) us])
                     end) ops (cumsum q0, [])).
 End DiscreteRVOps.
+
+(* MarkovChain.simulate with integer state_values (1-d, length n):
+   get_index: np.where(state_values == value)[0][0] (first match, ValueError if none);
+   the result is state_values[X] for the index paths X *)
+Fixpoint index_of (sv : list Z) (v : Z) (i : Z) : res Z :=
+  match sv with
+  | [] => ValueErr
+  | x :: r => if x =? v then Ok i else index_of r v (i + 1)
+  end.
+Definition annotate (sv : list Z) (X : list (list Z)) : list (list Z) :=
+  map (map (fun i => nth (Z.to_nat i) sv 0)) X.
+
+Section SimulateSV.
+Context {T : Type} `{Num T}.
+Definition simulate_sv (c : chain) (sv : list Z) (ts : Z) (init : init_t) (num_reps : option Z)
+  (drawn : list Z) (stream : list T) : res (bool * list (list Z)) :=
+  bind (match init with
+        | INone => Ok INone
+        | IInt v => bind (index_of sv v 0) (fun i => Ok (IInt i))
+        | IArr l => bind (mapM (fun v => index_of sv v 0) l) (fun li => Ok (IArr li))
+        end) (fun init_idx =>
+  bind (simulate_indices c ts init_idx num_reps drawn stream) (fun r => Ok (fst r, annotate sv (snd r)))).
+End SimulateSV.
